@@ -1,1 +1,3 @@
+/- C04: second HCM pass = steady-state hystereses of the repeated sequence. -/
 import Model.HCMSpec
+import Proofs.C04Periodic
